@@ -14,6 +14,8 @@ mod scenario;
 mod shrink;
 mod sim;
 mod twin;
+mod wallet;
+mod wallet_node;
 mod web;
 mod world;
 
